@@ -25,22 +25,26 @@ EXTENDS Naturals, Sequences, FiniteSets, TLC, Json
 CONSTANTS URIs,        \* documents
           MaxChanges,  \* total number of deliveries in the burst
           Guard,       \* "none" | "latest"
-          Split        \* FALSE: check+send is one atomic step (publish lock held across both);
+          Split,       \* FALSE: check+send is one atomic step (publish lock held across both);
                        \* TRUE: the decision (Check) and the delivery to the client (Send) are separate steps
+          MaxCloses    \* how many times a document may be closed in the burst (a delivery to a closed document re-opens it)
 
 VARIABLES ver,         \* URI -> latest delivered version (0 = never opened)
           jobs,        \* set of [uri, ver, pc]   pc \in {"run", "pub"}
           published,   \* URI -> version of the last publication (0 = none)
           delivered,   \* number of deliveries so far
+          closed,      \* documents that are closed right now (after having been open)
+          ncloses,
           h            \* schedule printed for replay (hidden by VIEW)
 
-vars == <<ver, jobs, published, delivered, h>>
-view == <<ver, jobs, published, delivered>>
+vars == <<ver, jobs, published, delivered, closed, ncloses, h>>
+view == <<ver, jobs, published, delivered, closed, ncloses>>
 
 Init == /\ ver = [u \in URIs |-> 0]
         /\ jobs = {}
         /\ published = [u \in URIs |-> 0]
         /\ delivered = 0
+        /\ closed = {} /\ ncloses = 0
         /\ h = <<>>
 
 Deliver(u) ==
@@ -49,13 +53,22 @@ Deliver(u) ==
     /\ ver' = [ver EXCEPT ![u] = @ + 1]
     /\ jobs' = jobs \cup {[uri |-> u, ver |-> ver[u] + 1, pc |-> "run"]}
     /\ h' = Append(h, [e |-> "deliver", uri |-> u, ver |-> ver[u] + 1])
-    /\ UNCHANGED published
+    /\ closed' = closed \ {u}                      \* a delivery to a closed document is its didOpen
+    /\ UNCHANGED <<published, ncloses>>
+
+(* didClose: nothing is started, jobs under way go on; what they publish for a closed document is nobody's concern,
+   but after a re-open the last word must again be the latest version's *)
+Close(u) ==
+    /\ ncloses < MaxCloses /\ ver[u] > 0 /\ u \notin closed /\ delivered < MaxChanges
+    /\ closed' = closed \cup {u} /\ ncloses' = ncloses + 1
+    /\ h' = Append(h, [e |-> "close", uri |-> u, ver |-> ver[u]])
+    /\ UNCHANGED <<ver, jobs, published, delivered>>
 
 (* the job finishes loading/analysing and stands at its publish point *)
 Step(j) ==
     /\ j \in jobs /\ j.pc = "run"
     /\ jobs' = (jobs \ {j}) \cup {[j EXCEPT !.pc = "pub"]}
-    /\ UNCHANGED <<ver, published, delivered, h>>
+    /\ UNCHANGED <<ver, published, delivered, closed, ncloses, h>>
 
 (* the publish point: one atomic step (the repaired code holds a lock across check+publish) *)
 AtPublish(j) ==
@@ -66,7 +79,7 @@ AtPublish(j) ==
            skip  == Guard = "latest" /\ stale
        IN /\ published' = IF skip THEN published ELSE [published EXCEPT ![j.uri] = j.ver]
           /\ h' = Append(h, [e |-> "publish", uri |-> j.uri, ver |-> j.ver])
-    /\ UNCHANGED <<ver, delivered>>
+    /\ UNCHANGED <<ver, delivered, closed, ncloses>>
 
 (* Split mechanism: the staleness decision and the delivery of the notification are two steps;
    another job may run in between.  With Guard = "latest" this is exactly the defect of checking
@@ -77,7 +90,7 @@ Check(j) ==
     /\ LET skip == Guard = "latest" /\ j.ver # ver[j.uri]
        IN jobs' = IF skip THEN jobs \ {j} ELSE (jobs \ {j}) \cup {[j EXCEPT !.pc = "send"]}
     /\ h' = Append(h, [e |-> "check", uri |-> j.uri, ver |-> j.ver])
-    /\ UNCHANGED <<ver, published, delivered>>
+    /\ UNCHANGED <<ver, published, delivered, closed, ncloses>>
 
 Send(j) ==
     /\ Split
@@ -85,9 +98,9 @@ Send(j) ==
     /\ jobs' = jobs \ {j}
     /\ published' = [published EXCEPT ![j.uri] = j.ver]
     /\ h' = Append(h, [e |-> "send", uri |-> j.uri, ver |-> j.ver])
-    /\ UNCHANGED <<ver, delivered>>
+    /\ UNCHANGED <<ver, delivered, closed, ncloses>>
 
-Next == \/ \E u \in URIs : Deliver(u)
+Next == \/ \E u \in URIs : Deliver(u) \/ Close(u)
         \/ \E j \in jobs : Step(j) \/ AtPublish(j) \/ Check(j) \/ Send(j)
 
 Fairness == \A u \in URIs, v \in 1..MaxChanges :
@@ -104,10 +117,10 @@ TypeOK == /\ ver \in [URIs -> 0..MaxChanges]
 Quiescent == delivered = MaxChanges /\ jobs = {}
 
 (* C13 *)
-Converged == Quiescent => \A u \in URIs : ver[u] > 0 => published[u] = ver[u]
+Converged == Quiescent => \A u \in URIs : (ver[u] > 0 /\ u \notin closed) => published[u] = ver[u]
 
 (* no job is ever lost or stuck: whenever the client pauses, the jobs drain *)
 JobsDrain == []<>(jobs = {})
 
-Emit == Quiescent => PrintT(ToJson([schedule |-> h, final |-> ver]))
+Emit == Quiescent => PrintT(ToJson([schedule |-> h, final |-> [u \in URIs |-> IF u \in closed THEN 0 ELSE ver[u]]]))
 =============================================================================
